@@ -32,6 +32,9 @@
 //!       vs the model's table `Model/WriteSites.lean` (theorem `every_non_key_write_is_encrypted`) -> `ok <lines joined by ;>`
 //!  * `tamper <seed>`       oracle only: every stored non-key file × {bit flips at first/last/middle/random positions,
 //!       truncation, extension}: the affected read fails or returns the original content, never other content.
+//!  * `swap index|pack|key <seed>` exchange the stored bytes of two files of that type, then read everything: every read fails or
+//!       returns what it returned before -> `ok`;  `swap packtwin <seed>`: two data packs with identical layout exchanged -> the read
+//!       returns the OTHER file's content (`oracle-fail:substitution-undetected`, known finding: blob ids are not verified on read)
 //!  * `swap snapshot <seed>` exchange the stored bytes of two snapshot files and read the first id: returns the second
 //!       snapshot without error -> `oracle-fail:substitution-undetected` (known finding, DESIGN §7 #12).
 use std::collections::BTreeSet;
@@ -249,6 +252,14 @@ pub fn generate(thorough: bool, rng: &mut Rng, ops: &mut Vec<String>, stats: &mu
         stats.hit("tamper");
     }
     ops.push(format!("c04 swap snapshot {}", rng.below(1 << 40)));
+    // exchange two stored files of the same type, for every type: index / pack / key files (reads fail or are unchanged), and
+    // the border case of two data packs with identical layout
+    for kind in ["index", "pack", "pack", "key", "packtwin"] {
+        for _ in 0..(if thorough { 8 } else { 1 }) {
+            ops.push(format!("c04 swap {kind} {}", rng.below(1 << 40)));
+            stats.hit(format!("swap.{kind}"));
+        }
+    }
     ops.push("c04 sites".to_string());
     stats.hit("sites");
 }
@@ -1163,6 +1174,120 @@ fn exec_swap(seed: u64) -> String {
     }
 }
 
+/// `swap index|pack|key <seed>`: exchange the stored bytes of two files of that type (a seeded pair) in a repository with several
+/// backups; then every snapshot is read (ls + dump of every file): each read must FAIL or return exactly what it returned before
+/// the exchange.  (Index files are all read and merged, key files are all tried — exchanging them changes nothing; a blob read from
+/// an exchanged pack normally fails its MAC because offset / length belong to the other pack.)
+fn exec_swap_any(tpe: FileType, seed: u64) -> String {
+    let mut rng = Rng::new(seed);
+    let (h, snaps) = match build_repo(&mut rng, false) {
+        Ok(x) => x,
+        Err(e) => return e,
+    };
+    if tpe == FileType::Key {
+        // the repository was initialised with the master key: add two key files
+        for p in ["pw-swap-1", "pw-swap-2"] {
+            if let Err(e) = plant_key(&h, p, &mut rng) {
+                return e;
+            }
+        }
+    }
+    let before = match read_everything(&h, &snaps) {
+        Ok(b) => b,
+        Err(e) => return format!("oracle-fail:unreadable-before-swap:{e}"),
+    };
+    let ids = h.be.ids(tpe);
+    if ids.len() < 2 {
+        return "ok".into();
+    }
+    let i = rng.below(ids.len() as u64) as usize;
+    let mut j = rng.below(ids.len() as u64 - 1) as usize;
+    if j >= i {
+        j += 1;
+    }
+    let (a, b) = (ids[i], ids[j]);
+    let (ba, bb) = (h.be.get(tpe, &a).unwrap(), h.be.get(tpe, &b).unwrap());
+    h.be.put_raw(tpe, a, bb);
+    h.be.put_raw(tpe, b, ba);
+    if tpe == FileType::Key {
+        for p in ["pw-swap-1", "pw-swap-2"] {
+            if open_pw(&h, p) != "ok" {
+                return "oracle-fail:swapped-key-files-lock-out".into();
+            }
+        }
+        if open_pw(&h, "pw-swap-3") == "ok" {
+            return "oracle-fail:wrong-password-opens".into();
+        }
+    }
+    match read_everything(&h, &snaps) {
+        Err(_) => "ok".into(),
+        Ok(after) if after == before => "ok".into(),
+        Ok(_) => "oracle-fail:substitution-undetected".into(),
+    }
+}
+
+/// `swap packtwin <seed>`: the border case of pack substitution — two data packs with the SAME layout (one blob of equal stored
+/// length each: two incompressible files of equal size, compression off, a pack per blob).  After exchanging their bytes the blob
+/// at (offset, length) of pack A is a complete, valid message — of the other file.  A read that does not compare the blob's hash
+/// with its id returns the other file's content without error (`oracle-fail:substitution-undetected`; `check --read-data` must
+/// at least report it: `oracle-fail:check-blind` otherwise).
+fn exec_swap_packtwin(seed: u64) -> String {
+    let mut rng = Rng::new(seed);
+    let cfg = ConfigOptions::default().set_compression(0).set_datapack_size(bytesize::ByteSize(1)).set_datapack_growfactor(0u32);
+    let (h, _r) = match RepoHandle::init_nocache(MemBackend::new(), None, &cfg) {
+        Ok(x) => x,
+        Err(e) => return errkind(&e),
+    };
+    let n = 200 + rng.below(3000) as usize;
+    let src = MemSource::new(vec![SrcEntry::file(&[b"a"], &rng.bytes(n)), SrcEntry::file(&[b"b"], &rng.bytes(n))]);
+    let snap = match snapshot_opts().to_snapshot() {
+        Ok(s) => s,
+        Err(e) => return errkind(&e),
+    };
+    let snap = match repo::backup_nocache(&h, &src, &BackupOptions::default(), snap) {
+        Ok(s) => s,
+        Err(e) => return errkind(&e),
+    };
+    let snaps = vec![snap];
+    let before = match read_everything(&h, &snaps) {
+        Ok(b) => b,
+        Err(e) => return format!("oracle-fail:unreadable-before-swap:{e}"),
+    };
+    // the two data packs: one blob each, equal size
+    let repo = match h.open_nocache() {
+        Ok(r) => r,
+        Err(e) => return errkind(&e),
+    };
+    let dbe = rustic_core::verif::repository::dbe(&repo);
+    let mut data_packs: Vec<Id> = vec![];
+    for id in h.be.ids(FileType::Index) {
+        match dbe.get_file::<IndexFile>(&rustic_core::repofile::IndexId::from(id)) {
+            Ok(f) => data_packs.extend(f.packs.iter().filter(|p| p.blobs.len() == 1 && p.blobs[0].tpe == rustic_core::repofile::BlobType::Data).map(|p| Id::from(*p.id))),
+            Err(e) => return errkind(&e),
+        }
+    }
+    drop(repo);
+    if data_packs.len() != 2 {
+        return format!("oracle-fail:setup-twin-packs:{}", data_packs.len());
+    }
+    let (a, b) = (data_packs[0], data_packs[1]);
+    let (ba, bb) = (h.be.get(FileType::Pack, &a).unwrap(), h.be.get(FileType::Pack, &b).unwrap());
+    if ba.len() != bb.len() {
+        return "oracle-fail:setup-twin-packs-differ-in-size".into();
+    }
+    h.be.put_raw(FileType::Pack, a, bb);
+    h.be.put_raw(FileType::Pack, b, ba);
+    let undetected = match read_everything(&h, &snaps) {
+        Err(_) => false,
+        Ok(after) => after != before,
+    };
+    match repo::check_errors_nocache(&h, true) {
+        Some(0) => return "oracle-fail:check-blind".into(),
+        Some(_) | None => {}
+    }
+    if undetected { "oracle-fail:substitution-undetected".into() } else { "ok detected".into() }
+}
+
 pub fn exec(t: &[&str]) -> String {
     let t: Vec<String> = t.iter().map(|s| (*s).to_string()).collect();
     guarded(move || match t.iter().map(String::as_str).collect::<Vec<_>>().as_slice() {
@@ -1185,6 +1310,10 @@ pub fn exec(t: &[&str]) -> String {
         ["hist", seed] => seed.parse::<u64>().map_or("bad-op".into(), exec_hist),
         ["tamper", seed] => seed.parse::<u64>().map_or("bad-op".into(), exec_tamper),
         ["swap", "snapshot", seed] => seed.parse::<u64>().map_or("bad-op".into(), exec_swap),
+        ["swap", "index", seed] => seed.parse::<u64>().map_or("bad-op".into(), |s| exec_swap_any(FileType::Index, s)),
+        ["swap", "pack", seed] => seed.parse::<u64>().map_or("bad-op".into(), |s| exec_swap_any(FileType::Pack, s)),
+        ["swap", "key", seed] => seed.parse::<u64>().map_or("bad-op".into(), |s| exec_swap_any(FileType::Key, s)),
+        ["swap", "packtwin", seed] => seed.parse::<u64>().map_or("bad-op".into(), exec_swap_packtwin),
         _ => "bad-op".into(),
     })
 }
